@@ -81,7 +81,8 @@ fn render(desc: &Value, mode: &str, version: u64, extras: &str, form: &Value) ->
         "none" | "bi" => false,
         _ => mode != "WebRtc",
     };
-    let text = render_crlf(desc, mode, version, extras, &sname, &ouser, session_c, sess == "bi" || sess == "all", flags, tricky);
+    let session_setup = fs("setuplvl", "media") == "session";
+    let text = render_crlf(desc, mode, version, extras, &sname, &ouser, session_c, sess == "bi" || sess == "all", flags, tricky, session_setup);
     let mut lines: Vec<String> = text.split("\r\n").filter(|l| !l.is_empty()).map(|l| l.to_string()).collect();
     if blanks {
         for l in lines.iter_mut() {
@@ -111,6 +112,7 @@ fn render_crlf(
     session_bi: bool,
     flags: bool,
     tricky: bool,
+    session_setup: bool,
 ) -> String {
     let secs = desc["secs"].as_array().unwrap();
     let mut s = String::new();
@@ -145,8 +147,16 @@ fn render_crlf(
     if extras == "sip" {
         s.push_str("a=tool:verif 1.0\r\n");
     }
-    if extras == "browser" || flags {
+    let two_byte_ids = secs.iter().any(|x| x["ext"].as_array().is_some_and(|e| e.iter().any(|p| p[0].as_u64().unwrap_or(0) > 14)));
+    if extras == "browser" || flags || two_byte_ids {
         s.push_str("a=extmap-allow-mixed\r\n");
+    }
+    if session_setup
+        && let Some(setup) = secs.first().and_then(|x| x["setup"].as_str())
+        && setup != "none"
+    {
+        s.push_str(&format!("a=fingerprint:sha-256 {FP}\r\n"));
+        s.push_str(&format!("a=setup:{setup}\r\n"));
     }
     if flags {
         s.push_str("a=ice-lite\r\n");
@@ -206,7 +216,7 @@ fn render_crlf(
             s.push_str("a=ice-options:trickle\r\n");
         }
         let setup = sec["setup"].as_str().unwrap();
-        if setup != "none" {
+        if setup != "none" && !session_setup {
             s.push_str(&format!("a=fingerprint:sha-256 {FP}\r\n"));
             s.push_str(&format!("a=setup:{setup}\r\n"));
         }
@@ -368,7 +378,12 @@ fn abstract_desc(d: &SessionDescription) -> Value {
             "ext": if rtp { ext } else { vec![] },
             "dir": if rtp { dir } else { "sendrecv" },
             "mux": m.attributes.iter().any(|a| a.key == "rtcp-mux"),
-            "setup": attr("setup").into_iter().next().unwrap_or_else(|| "none".into()),
+            // a session-level a=setup applies to every m= section that has none of its own
+            "setup": attr("setup")
+                .into_iter()
+                .next()
+                .or_else(|| d.session.attributes.iter().find(|a| a.key == "setup").and_then(|a| a.value.clone()))
+                .unwrap_or_else(|| "none".into()),
             "port0": m.port == 0,
             "sim": m.attributes.iter().any(|a| a.key == "simulcast"),
             "fmts": if rtp { vec![] } else { m.formats.iter().map(|f| f.to_ascii_lowercase()).collect::<Vec<_>>() },
@@ -641,7 +656,7 @@ async fn run_one(i: usize, rec: Value) -> Value {
             return out;
         }
     }
-    if cfg["neg"] == "subsequent" || cfg["neg"] == "grow" {
+    if cfg["neg"] == "subsequent" || cfg["neg"] == "grow" || cfg["neg"] == "moved" {
         let text = render(&rec["prev"], mode, version, extras, &rec["form"]);
         version += 1;
         match answer_to(&pc, &text, &mut rts, "previous").await {
